@@ -87,7 +87,11 @@ def clear (h : PathMut) : Option PathMut :=
 /-- inner `symbolic_push`: new handle and the `open` flag -/
 def symbolic_push (h : PathMut) (segment : Text) : Option (PathMut × Bool) :=
   if segment == [cDot] then some (h, true)
-  else if segment == [cDot, cDot] then (h.pop).map fun h' => (h', true)
+  else if segment == [cDot, cDot] then
+    -- a lone `.` is the shield left behind by a popped segment: the path is empty
+    match (if h.view == [cDot] then h.clear else some h) with
+    | some h0 => (h0.pop).map fun h' => (h', true)
+    | none => none
   else if !segment.isEmpty || !Path.is_empty h.view then (h.push segment).map fun h' => (h', false)
   else some (h, false)
 
